@@ -196,6 +196,53 @@ class PredictAll(Contract):
         lambda r, i: res.get(r, i) == _pred(E, a.self, old["X"], i + 1, r))}
 
 
+@contract(F + "::IntervalRegressor.predict", "C17")
+class Predict(Contract):
+    """predict is the mean of the individual predictions: (1/m) * sum_i predict_i(x); hence it lies between any bounds of them"""
+
+    def setup(self, E, v):
+        n, d = E.size("n", 0), E.size("d", 1)
+        return dict(self=_fitted_self(E), X=E.nd("X", (n, d)))
+
+    def requires(self, E, a):
+        return {"at_least_one_model": z(a.self.fields["estimators_"].length) >= 1}
+
+    def old(self, E, a):
+        return dict(X=a.X.snapshot(), ns=len(E.ps.get("row_sums", [])))
+
+    def ensures(self, E, a, res, old, wrong=False):
+        s = a.self
+        m = z(s.fields["estimators_"].length)
+        ok = isinstance(res, NdArr) and res.ndim == 1
+        out = {"vector": z3.BoolVal(ok)}
+        sums = E.ps.get("row_sums", [])[old["ns"]:]
+        out["one_row_wise_mean"] = z3.BoolVal(len(sums) == 1)
+        if not ok or len(sums) != 1:
+            return out
+        f, fs, mm = sums[0]
+        n = z(a.X.shape[0])
+        X = old["X"]
+        out["one_value_per_row"] = z(res.shape[0]) == n
+        # the summed matrix is the matrix of individual predictions (postcondition of predict_all) ...
+        out["mean_is_taken_over_the_individual_predictions_of_the_row"] = z3.And(mm == m, E.forall_range(
+            [(0, n), (0, m)], lambda r, i: fs.get(r, i) == _pred(E, s, X, i, r)))
+        # ... predict[r] is RowSum(r) / m, RowSum(r) := sum_i fs[r, i] (ghost definition; lemma instance below)
+        out["predict_is_the_row_sum_divided_by_the_number_of_models"] = E.forall_range([(0, n)], lambda r: res.get(r) == f(r) / z3.ToReal(m) + (1 if wrong else 0))
+        lo, hi, r, i = z3.Real("lo!b"), z3.Real("hi!b"), z3.Int("r!b"), z3.Int("i!b")      # arbitrary bounds and row: free constants
+        # lemma row_mean_bounds (Pyvc.mean_bounds in lemmas/Counting.lean), instance for these bounds and this row:
+        # a mean lies between any bounds of its terms
+        E.axiom(z3.Implies(z3.And(mm >= 1, z3.ForAll([i], z3.Implies(z3.And(i >= 0, i < mm), z3.And(lo <= fs.get(r, i), fs.get(r, i) <= hi)))),
+                           z3.And(lo <= f(r) / z3.ToReal(mm), f(r) / z3.ToReal(mm) <= hi)))
+        E.used_lemmas.add("row_mean_bounds")
+        out["predict_lies_between_any_bounds_of_the_individual_predictions"] = z3.Implies(
+            z3.And(r >= 0, r < n, z3.ForAll([i], z3.Implies(z3.And(i >= 0, i < m), z3.And(lo <= _pred(E, s, X, i, r), _pred(E, s, X, i, r) <= hi)))),
+            z3.And(lo <= res.get(r), res.get(r) <= hi))
+        return out
+
+    canaries = {"mean_plus_one": lambda E, a, res, old: Predict().ensures(E, a, res, old, wrong=True).get(
+        "predict_is_the_row_sum_divided_by_the_number_of_models", z3.BoolVal(True))}
+
+
 @contract(F + "::IntervalRegressor.predict_sorted", "C17")
 class PredictSorted(Contract):
     def setup(self, E, v):
@@ -248,10 +295,11 @@ class PredictSorted(Contract):
 
 
 META = dict(
-    level="proof", assumptions=["A1", "A2", "A6", "A7", "A8", "A9"],
+    lean_files=["lemmas/Counting.lean"], level="proof", assumptions=["A1", "A2", "A6", "A7", "A8", "A9"],
     trusted=["numpy.random.randint(low, high, size): values uniform in [low, high), ValueError if high <= low",
              "estimator protocol: fit returns the receiver; predict is a deterministic function of (fitted state, row)",
              "numpy.sort returns a non-decreasing permutation of its argument; sklearn.base.clone returns a fresh unfitted copy"],
-    not_applicable=["predict = row mean and min<=predict<=max: numpy mean(axis=1) over a symbolic number of columns is not "
-                    "modelled by the verifier; covered by the bounded stand-in only"],
+    not_applicable=["predict: proved to be RowSum(r) / m over the matrix of individual predictions and to lie between any bounds of them (min <= predict <= "
+                    "max), through the ghost row sum and the lemma row_mean_bounds (Lean-checked); that numpy's mean(axis=1) IS that row sum divided by "
+                    "the number of columns is the assumed model (floating point summation order is outside A1)"],
 )
